@@ -58,52 +58,61 @@ theorem create_spec (parts : List Part) (s : List Resv) (rid : List Char) (rq : 
     refine ⟨hnfit, r, t, ?_⟩
     rw [herr]
 
-/-- What `update` returns for a request the schema admits, over well-formed stored data. -/
+theorem merge_id (old : Resv) (rq : Rq) : (merge old rq).id = old.id := rfl
+
+theorem merge_quantities {old : Resv} {rq : Rq} {c d m : List Char} (hc : rq.cpu = .val c)
+    (hd : rq.disk = .val d) (hm : rq.mem = .val m) :
+    (merge old rq).cpu = c ∧ (merge old rq).disk = d ∧ (merge old rq).mem = m := by
+  simp [merge, hc, hd, hm]
+
+/-- What `update` returns for a request the schema admits, over well-formed stored data: a
+    missing id is reported before any check; otherwise the MERGED reservation (stored one
+    updated with the request: partition `p` from the request, traits from the request or, when
+    the request has none, the stored ones) is what must fit. -/
 theorem update_spec (parts : List Part) (s : List Resv) (rid : List Char) (rq : Rq)
     (alloc cell p : Name) (hs : schemaOK updateRequired rq = true)
     (hid : splitId rid = some (alloc, cell)) (hp : rq.part = .val p) (hl : rq.WithinLimits)
     (wf : WFCheck parts s cell p alloc) :
-    ∃ c d m v, rq.cpu = .val c ∧ rq.disk = .val d ∧ rq.mem = .val m ∧ parse3 c d m = .ok v ∧
-      Vec.zero ≤ v ∧
-      ((Fits parts s cell p alloc (rq.toCReq none).traitList v ∧
-          ((∃ old, findResv s (alloc, cell) = some old ∧
-              update parts s rid rq = .ok (repl s (alloc, cell) (merge old rq))) ∨
-           (findResv s (alloc, cell) = none ∧ update parts s rid rq = .error .notFound))) ∨
-       (¬ Fits parts s cell p alloc (rq.toCReq none).traitList v ∧
+    (findResv s (alloc, cell) = none ∧ update parts s rid rq = .error .notFound) ∨
+    ∃ old c d m v, findResv s (alloc, cell) = some old ∧
+      rq.cpu = .val c ∧ rq.disk = .val d ∧ rq.mem = .val m ∧ parse3 c d m = .ok v ∧ Vec.zero ≤ v ∧
+      ((Fits parts s cell p alloc (merge old rq).traits v ∧
+          update parts s rid rq = .ok (repl s (alloc, cell) (merge old rq))) ∨
+       (¬ Fits parts s cell p alloc (merge old rq).traits v ∧
           ∃ r t, update parts s rid rq = .error (.invalidInput r t))) := by
   obtain ⟨c, d, m, v, hc, hd, hm, pc, pd, pm, h0⟩ := rq_quantities _ (Or.inr rfl) rq hs hl
-  refine ⟨c, d, m, v, hc, hd, hm, parse3_of_parts pc pd pm, h0, ?_⟩
-  have hv := toCReq_parsesTo hc hd hm pc pd pm (some (some p))
-  have hup : updatePart rq = some (some p) := by simp [updatePart, hp]
   unfold update
-  simp only [hs, Bool.not_true, Bool.false_eq_true, if_false, hid, hup]
-  rcases checkCapacity_spec parts s cell alloc p (rq.toCReq (some (some p))) v rfl hv wf with
-    ⟨hfit, hok⟩ | ⟨hnfit, r, t, herr⟩
-  · left
-    rw [toCReq_traitList] at hfit
-    refine ⟨hfit, ?_⟩
-    rw [hok]
+  simp only [hs, Bool.not_true, Bool.false_eq_true, if_false, hid]
+  cases hf : findResv s (alloc, cell) with
+  | none => left; exact ⟨rfl, rfl⟩
+  | some old =>
+    right
+    refine ⟨old, c, d, m, v, rfl, hc, hd, hm, parse3_of_parts pc pd pm, h0, ?_⟩
+    obtain ⟨mc, md, mm⟩ := merge_quantities (old := old) hc hd hm
+    have hv : (mergedCReq old rq).ParsesTo v :=
+      ⟨c, d, m, by simp [mergedCReq, mc], by simp [mergedCReq, md], by simp [mergedCReq, mm], pc, pd, pm⟩
+    have hpart : (mergedCReq old rq).part = some (some p) := by simp [mergedCReq, hp]
+    have htl : (mergedCReq old rq).traitList = (merge old rq).traits := rfl
     simp only []
-    cases hf : findResv s (alloc, cell) with
-    | none => right; simp
-    | some o => left; exact ⟨o, rfl, rfl⟩
-  · right
-    rw [toCReq_traitList] at hnfit
-    refine ⟨hnfit, r, t, ?_⟩
-    rw [herr]
+    rcases checkCapacity_spec parts s cell alloc p (mergedCReq old rq) v hpart hv wf with
+      ⟨hfit, hok⟩ | ⟨hnfit, r, t, herr⟩
+    · left
+      rw [htl] at hfit
+      exact ⟨hfit, by rw [hok]⟩
+    · right
+      rw [htl] at hnfit
+      exact ⟨hnfit, r, t, by rw [herr]⟩
 
 /-! ### accepted requests preserve the invariant -/
 
 /-- Side conditions on a request of a stream (all decidable): the partition is not `null`, the
-    quantity strings respect the interpreter's digit limit, the trait list has no duplicates —
-    and an **update carries its trait list** (see `C19_sequence_update_without_traits_witness`
-    for what happens otherwise). -/
-def ReqOK (v : Verb) (rq : Rq) : Prop :=
-  rq.part ≠ .null ∧ rq.WithinLimits ∧ (rq.toCReq none).traitList.Nodup ∧
-  (v = .update → rq.traits.toOpt.isSome = true)
+    quantity strings respect the interpreter's digit limit, and the trait list (if any) has no
+    duplicates. -/
+def ReqOK (rq : Rq) : Prop :=
+  rq.part ≠ .null ∧ rq.WithinLimits ∧ (rq.toCReq none).traitList.Nodup
 
-instance (v : Verb) (rq : Rq) : Decidable (ReqOK v rq) :=
-  inferInstanceAs (Decidable (_ ∧ _ ∧ _ ∧ _))
+instance (rq : Rq) : Decidable (ReqOK rq) :=
+  inferInstanceAs (Decidable (_ ∧ _ ∧ _))
 
 theorem create_ok_inv {parts : List Part} {s s' : List Resv} {rid : List Char} {rq : Rq}
     (h : create parts s rid rq = .ok s') :
@@ -133,10 +142,10 @@ theorem schemaOK_part_not_bad {req : List String} {rq : Rq} (h : schemaOK req rq
   simp [schemaOK, e] at h
 
 theorem create_preserves {parts : List Part} {s s' : List Resv} {rid : List Char} {rq : Rq}
-    (hparts : PartsWF parts) (hi : Inv parts s) (hok : ReqOK .create rq)
+    (hparts : PartsWF parts) (hi : Inv parts s) (hok : ReqOK rq)
     (h : create parts s rid rq = .ok s') : Inv parts s' := by
   obtain ⟨hs, alloc, cell, hid⟩ := create_ok_inv h
-  obtain ⟨hnull, hl, htr, _⟩ := hok
+  obtain ⟨hnull, hl, htr⟩ := hok
   obtain ⟨p, hp⟩ : ∃ p, createPart rq = some p := by
     have hb := schemaOK_part_not_bad hs
     unfold createPart
@@ -155,10 +164,10 @@ theorem create_preserves {parts : List Part} {s s' : List Resv} {rid : List Char
   · rw [hres] at h; cases h
 
 theorem update_preserves {parts : List Part} {s s' : List Resv} {rid : List Char} {rq : Rq}
-    (hparts : PartsWF parts) (hi : Inv parts s) (hok : ReqOK .update rq)
+    (hparts : PartsWF parts) (hi : Inv parts s) (hok : ReqOK rq)
     (h : update parts s rid rq = .ok s') : Inv parts s' := by
   obtain ⟨hs, alloc, cell, hid⟩ := update_ok_inv h
-  obtain ⟨hnull, hl, htr, htraits⟩ := hok
+  obtain ⟨hnull, hl, htr⟩ := hok
   have hpres := update_requires_partition rq (schemaOK_parts hs).2.2.2
   obtain ⟨p, hp⟩ : ∃ p, rq.part = .val p := by
     have hb := schemaOK_part_not_bad hs
@@ -167,43 +176,43 @@ theorem update_preserves {parts : List Part} {s s' : List Resv} {rid : List Char
     | null => exact absurd hpart hnull
     | val p => exact ⟨p, rfl⟩
     | bad => exact absurd hpart hb
-  obtain ⟨l, hlt⟩ : ∃ l, rq.traits = .val l := by
-    have := htraits rfl
-    cases ht : rq.traits with
-    | val l => exact ⟨l, rfl⟩
-    | absent => simp [ht, Fld.toOpt] at this
-    | null => simp [ht, Fld.toOpt] at this
-    | bad => simp [ht, Fld.toOpt] at this
-  obtain ⟨c, d, m, v, hc, hd, hm, hv, h0, hcase⟩ :=
-    update_spec parts s rid rq alloc cell p hs hid hp hl (wfCheck_of_inv hparts hi cell p alloc)
-  rcases hcase with ⟨hfit, ⟨old, hfind, hres⟩ | ⟨_, hres⟩⟩ | ⟨_, r, t, hres⟩
-  · rw [hres] at h
-    cases h
-    obtain ⟨hmem, hoid⟩ := findResv_some hfind
-    have hmid : (merge old rq).id = (alloc, cell) := by
-      have : (merge old rq).id = old.id := rfl
-      rw [this, hoid]
-    have hcell : (merge old rq).cell = cell := congrArg Prod.snd hmid
-    have halloc : (merge old rq).alloc = alloc := congrArg Prod.fst hmid
-    have hpart : (merge old rq).part = p := by simp [merge, hp]
-    have htl : (merge old rq).traits = (rq.toCReq none).traitList := by
-      simp [merge, hlt, Rq.toCReq, CReq.traitList]
-    have hvec : (merge old rq).vec? = .ok v := by
-      simp only [Resv.vec?, merge, hc, hd, hm]; exact hv
-    have := inv_repl hi old (merge old rq) v hmem (by rw [hoid, hmid]) hvec h0 (htl ▸ htr)
-      (by rw [hcell, hpart, halloc, htl]; exact hfit)
-    rwa [hmid] at this
+  rcases update_spec parts s rid rq alloc cell p hs hid hp hl (wfCheck_of_inv hparts hi cell p alloc) with
+    ⟨_, hres⟩ | ⟨old, c, d, m, v, hfind, hc, hd, hm, hv, h0, hcase⟩
   · rw [hres] at h; cases h
-  · rw [hres] at h; cases h
+  · obtain ⟨hmem, hoid⟩ := findResv_some hfind
+    rcases hcase with ⟨hfit, hres⟩ | ⟨_, r, t, hres⟩
+    · rw [hres] at h
+      cases h
+      have hmid : (merge old rq).id = (alloc, cell) := by rw [merge_id, hoid]
+      have hcell : (merge old rq).cell = cell := congrArg Prod.snd hmid
+      have halloc : (merge old rq).alloc = alloc := congrArg Prod.fst hmid
+      have hpart : (merge old rq).part = p := by simp [merge, hp]
+      -- traits of the merged record: the request's (duplicate-free by `ReqOK`) or the stored ones
+      have htn : (merge old rq).traits.Nodup := by
+        cases ht : rq.traits with
+        | val l =>
+          have e : (merge old rq).traits = (rq.toCReq none).traitList := by
+            simp [merge, ht, Rq.toCReq, CReq.traitList]
+          rw [e]; exact htr
+        | absent => simp only [merge, ht]; exact hi.traits old hmem
+        | null => simp only [merge, ht]; exact hi.traits old hmem
+        | bad => simp only [merge, ht]; exact hi.traits old hmem
+      obtain ⟨mc, md, mm⟩ := merge_quantities (old := old) hc hd hm
+      have hvec : (merge old rq).vec? = .ok v := by
+        simp only [Resv.vec?, mc, md, mm]; exact hv
+      have := inv_repl hi old (merge old rq) v hmem (by rw [hoid, hmid]) hvec h0 htn
+        (by rw [hcell, hpart, halloc]; exact hfit)
+      rwa [hmid] at this
+    · rw [hres] at h; cases h
 
 theorem runReqs_preserves {parts : List Part} (hparts : PartsWF parts)
     (reqs : List (Verb × List Char × Rq)) (s : List Resv) (hi : Inv parts s)
-    (hreq : ∀ q ∈ reqs, ReqOK q.1 q.2.2) : Inv parts (runReqs parts s reqs) := by
+    (hreq : ∀ q ∈ reqs, ReqOK q.2.2) : Inv parts (runReqs parts s reqs) := by
   induction reqs generalizing s with
   | nil => exact hi
   | cons q rest ih =>
     obtain ⟨v, rid, rq⟩ := q
-    have hq : ReqOK v rq := hreq (v, rid, rq) List.mem_cons_self
+    have hq : ReqOK rq := hreq (v, rid, rq) List.mem_cons_self
     have hrest := fun x hx => hreq x (List.mem_cons_of_mem _ hx)
     simp only [runReqs]
     cases happ : Reserve.apply parts s v rid rq with
